@@ -37,12 +37,20 @@ class SourceModule(Object):
     def scope(self):
         # type: () -> SourceScope
         source = Source(open(self.filename).read(), self.filename)
-        scope = extract_scope(source, self.project)
+        self._loading = True
+        try:
+            scope = extract_scope(source, self.project)
+        finally:
+            self._loading = False
         return scope
 
     @property
     def _attrs(self):
         # type: () -> dict[str, Object | Name]
+        if getattr(self, '_loading', False):
+            # import cycle: like a partially initialized module,
+            # the module being analysed has no names yet
+            return {}
         return self.scope.exported_names  # type: ignore[return-value]
 
 
